@@ -208,7 +208,7 @@ pub fn explore<M: Model>(ctx: &Ctx, family: &str, model: &M, opts: ExploreOpts) 
         per_depth.push(level);
         depth_completed = depth + 1;
         frontier = next;
-        if states > opts.state_cap {
+        if states > opts.state_cap && depth_completed < opts.max_depth {
             cap_hit = Some(format!("state cap {} hit after depth {}", opts.state_cap, depth_completed));
             break;
         }
